@@ -396,7 +396,14 @@ fn replay<C: Check>(check: &C, path: &Path) -> i32 {
             return 2;
         }
     };
-    let rf: ReplayFile = match serde_json::from_str(&text) {
+    // (scenarios may be nested hundreds of levels deep — a left-nested chain of 500 weighted members, say —,
+    // beyond serde_json's default recursion limit of 128)
+    let parsed: Result<ReplayFile, serde_json::Error> = {
+        let mut de = serde_json::Deserializer::from_str(&text);
+        de.disable_recursion_limit();
+        serde::Deserialize::deserialize(&mut de)
+    };
+    let rf: ReplayFile = match parsed {
         Ok(r) => r,
         Err(e) => {
             eprintln!("HARNESS-ERROR: cannot parse {}: {e}", path.display());
